@@ -96,10 +96,20 @@ def build(prop, info, tier, log):
         obligations.append(("tables:" + ",".join(info.get("tables", [])), tables_ok, out[-400:] if not tables_ok else ""))
         if info.get("src"):
             # second tie (DESIGN §10): re-translate the Python text of the pure core into Gen/Src_*.v; the
-            # property's theorem file depends on the proofs that tie these definitions to the hand model
+            # property's theorem file depends on the proofs that tie these definitions to the hand model.
+            # A function the translator cannot read fails alone: only the properties that need it are told.
             rc, out = sh("/venv/bin/python tools/py2coq.py all", 120)
             log.append(out)
-            obligations.append(("source-translation:" + ",".join(info["src"]), rc == 0, out[-600:] if rc else ""))
+            try:
+                report = json.load(open(os.path.join(VERIF, "coq", "Gen", "src_report.json")))
+            except Exception as e:  # noqa: BLE001
+                report = {"?": {"unit": f"no report: {e}"}}
+            failed = {}
+            for unit, bad in report.items():
+                failed.update({(n if n != "unit" else f"unit:{unit}"): why for n, why in bad.items()})
+            mine = {n: why for n, why in failed.items() if n in info["src"] or n.startswith("unit:")}
+            obligations.append(("source-translation:" + ",".join(info["src"]), not mine,
+                                "; ".join(f"{n}: {why}" for n, why in mine.items())[:800]))
         rc, out = sh("make -s driver-only", 3000)
         log.append(out)
         driver_ok = rc == 0
